@@ -350,6 +350,8 @@ def run(ctx):
 
 
 def replay(ctx, payload):
+    if translate.is_link_replay(payload) and not payload.get("failing_input"):
+        return translate.replay(ctx, payload, "C14")  # a replay file written for a broken translation tie
     c = payload.get("case") or payload.get("failing_input")
     glits, kept = [], []
     do_case(ctx, c, glits, kept)
